@@ -17,7 +17,7 @@ def run(pid, tier, replay):
     if pid == "C18":
         from . import p_ct
         return p_ct.main(pid, tier, replay)
-    if pid in ("C10", "C11"):
+    if pid in ("C10", "C11", "C12"):
         from . import p_src
         return p_src.main(pid, tier, replay)
     print("unknown or unclaimed property %s" % pid)
